@@ -252,13 +252,22 @@ type in11d struct {
 	Rows []map[string]any `json:"rows"`
 }
 
-func dictRow(idx int, row map[string]any, res *vh.Result) {
+// dictRow executes one scenario; retry = the set-up did not produce the frame shape the scenario is about (the connect
+// reply was to leave in a batched frame and did not, last = false): nothing is recorded, the caller runs it again.
+func dictRow(idx int, row map[string]any, last bool, res *vh.Result) (retry bool) {
 	sc := vh.Map(row["sc"])
 	var ops []string
 	for _, x := range vh.List(sc["ops"]) {
 		ops = append(ops, vh.Str(x))
 	}
 	closer, slow, burst := vh.Str(sc["closer"]), vh.Bool(sc["slow"]), vh.Bool(sc["burst"])
+	// delay: ConnectReply.WriteDelay > 0 and a Client.Send from OnConnect, so that the connect reply leaves in a batched
+	// frame (Transport.WriteMany) together with that push
+	delay := false
+	if d, ok := sc["delay"]; ok {
+		delay = vh.Bool(d)
+	}
+	const writeDelay = 60 * time.Millisecond
 	replay := map[string]any{"scenario": sc}
 	fail := func(what string) {
 		res.Drift("C11", fmt.Sprintf("%s (scenario %s)", what, vh.J(sc)), replay)
@@ -282,7 +291,14 @@ func dictRow(idx int, row map[string]any, res *vh.Result) {
 		if slow {
 			gate.Arrive(gateHold)
 		}
-		return centrifuge.ConnectReply{Credentials: &centrifuge.Credentials{UserID: "u"}}, nil
+		rep := centrifuge.ConnectReply{Credentials: &centrifuge.Credentials{UserID: "u"}}
+		if delay {
+			rep.WriteDelay = writeDelay
+		}
+		return rep, nil
+	}
+	if delay {
+		env.Setup = func(c *centrifuge.Client) { _ = c.Send([]byte(`{"n":1}`)) }
 	}
 	if err := env.Run(); err != nil {
 		fail("run: " + err.Error())
@@ -352,6 +368,11 @@ func dictRow(idx int, row map[string]any, res *vh.Result) {
 				return
 			}
 		}
+		if burst && delay && !ws.waitData(2, gateWait) {
+			// issued within one write delay: the pushes leave together in the frame after the connect reply
+			fail("the frame with the pushes did not arrive")
+			return
+		}
 		switch closer {
 		case "client":
 			_ = ws.c.Close()
@@ -383,7 +404,7 @@ func dictRow(idx int, row map[string]any, res *vh.Result) {
 			}
 		}
 	}
-	if burst {
+	if burst && !delay {
 		// a graceful close flushes what is queued (several pushes may share one frame)
 		for deadline := time.Now().Add(gateWait); time.Now().Before(deadline); time.Sleep(200 * time.Microsecond) {
 			all := ""
@@ -436,6 +457,20 @@ func dictRow(idx int, row map[string]any, res *vh.Result) {
 	rc.mu.Unlock()
 	replay["engine"] = events
 	// ---- C11 on what the client received and the engine recorded
+	rawSig := "later-frame-raw"
+	if delay {
+		// the scenario is about a connect reply that shares its frame with the push sent from OnConnect
+		batched := len(data) > 0 && strings.Contains(wire[0]["payload"].(string), `"connect"`) && strings.Contains(wire[0]["payload"].(string), `{"n":1}`)
+		replay["connect_reply_batched"] = batched
+		if !batched {
+			if !last {
+				return true
+			}
+			fail("the connect reply did not leave in one frame with the push sent from OnConnect (write delay " + writeDelay.String() + ")")
+			return
+		}
+		rawSig = "frame-not-encoded:after-batched-connect-reply"
+	}
 	if len(data) > 0 {
 		first := wire[0]
 		if first["enc"].(bool) {
@@ -448,7 +483,7 @@ func dictRow(idx int, row map[string]any, res *vh.Result) {
 	}
 	for i := 1; i < len(wire); i++ {
 		if !wire[i]["enc"].(bool) {
-			violate("later-frame-raw", fmt.Sprintf("frame %d reached the client without going through the encoder: %s", i+1, wire[i]["payload"]))
+			violate(rawSig, fmt.Sprintf("frame %d reached the client without going through the encoder: %s", i+1, wire[i]["payload"]))
 		}
 	}
 	var encoded []string
@@ -489,7 +524,7 @@ func dictRow(idx int, row map[string]any, res *vh.Result) {
 	}
 	// ---- the row: what ConnDict.tla says
 	mw := vh.List(row["wire"])
-	if burst {
+	if burst && !delay {
 		// queued pushes may share frames: only the content is determined
 		all := ""
 		for _, w := range wire {
@@ -518,6 +553,7 @@ func dictRow(idx int, row map[string]any, res *vh.Result) {
 		res.Sample(replay)
 	}
 	res.Done(1, 1)
+	return false
 }
 
 func c11dict(in json.RawMessage, res *vh.Result) error {
@@ -533,7 +569,12 @@ func c11dict(in json.RawMessage, res *vh.Result) error {
 		go func(i int) {
 			defer wg.Done()
 			defer func() { <-sem }()
-			dictRow(i, ri.Rows[i], res)
+			for try := 0; try < 3; try++ {
+				if !dictRow(i, ri.Rows[i], try == 2, res) {
+					break
+				}
+				res.Count("re-executed", 1)
+			}
 		}(i)
 	}
 	wg.Wait()
